@@ -4,6 +4,7 @@ from common import case_line
 from gen import bound_text, bytes_upto, rand_bounds
 
 LEVEL = "proof"
+LYING = lambda a: "-b" in a        # which command lines of cases.rand_cli the lying-size stdin scenario keeps
 COUNTS = ["b"]        # modes of cases.count_thresholds
 BIG_IO = lambda a: "-b" in a        # which command lines of cases.rand_cli the large-input stream keeps
 
